@@ -83,3 +83,13 @@ Example C16_label_examples :
   /\ label_norm (str "Latin1"%string) = str "latin1"%string
   /\ label_norm (str "utf 8"%string) = str "utf 8"%string.
 Proof. vm_compute. repeat split. Qed.
+
+(* text decoding looks at Content-Type and at nothing else in the header list: two lists that give the same
+   Content-Type value give the same text (a Content-Length, a Content-Encoding, an entity tag beside it are
+   none of its business) *)
+Theorem C16_only_content_type_matters :
+  forall enc for_label enc_decode (hs hs' : list header) (body : bytes),
+    header_value hs CONTENT_TYPE = header_value hs' CONTENT_TYPE ->
+    decode_text enc for_label enc_decode hs body = decode_text enc for_label enc_decode hs' body.
+Proof. intros enc fl ed hs hs' body H. unfold decode_text. rewrite H. reflexivity. Qed.
+Print Assumptions C16_only_content_type_matters.
